@@ -104,6 +104,10 @@ class SymRat:
         return SymBool(self.eqz(o))
     __hash__ = None
     def __format__(self, s): return '<rat>'
+    def __round__(self, nd=None):
+        if self.den == 1: return SymInt(self.num)
+        q = self.num / self.den; r = self.num % self.den
+        return SymInt(S(z3.If(2 * r < self.den, q, z3.If(2 * r > self.den, q + 1, z3.If(q % 2 == 0, q, q + 1)))))
     def eqz(self, o): o = SymRat.of(o); return self.num * o.den == o.num * self.den
 SymInt.__truediv__ = lambda s, o: SymRat(s.t, o) if isinstance(o, int) and o > 0 else NotImplemented
 SymInt.__floordiv__ = lambda s, o: SymInt(S(s.t / o)) if isinstance(o, int) and o > 0 else NotImplemented
@@ -132,8 +136,7 @@ def sx_min(*a):
 def sx_join(recv, it):
     if isinstance(recv, (bytes, bytearray)):
         it = list(it)
-        if any(isinstance(v, SymBytes) for v in it): return lift(recv).join(it)
-        return recv.join(it)
+        return lift(recv).join(it)
     return recv.join(it)
 SHIMS = {'len': sx_len, 'int': sx_int, 'isinstance': sx_isinstance, 'bytes': sx_bytes, 'min': sx_min}
 class T(ast.NodeTransformer):
